@@ -293,7 +293,10 @@ func clientSingles(e SeedEnv, s clientSeed) []Case {
 }
 
 // channel shapes (the key prefix stays): rep:<unit>*<n> repeats a unit
-var chanDevMenu = []string{"rep:a/*2", "rep:a/*24", "rep:a/*1000", "rep:a/*30000", "rep:+/*64", "rep:a*60000/", "#/", "+/", "a//", "a", "/", "a/#/b/", "$share/g/a/b/"}
+var chanDevMenu = []string{
+	// malformed option lists (the option parser runs before authorization)
+	"a/b/?x", "a/b/?x=", "a/b/?=1", "a/b/?x=1&", "a/b/?x=1&y", "a/b/?last=1&x", "a/b/?x=1&&y=2", "a/b/?x=1=2", "a/b/?&", "a/b/?", "a/b/?x=1&y=", "rep:a/b/?x=1&*2000y",
+	"rep:a/*2", "rep:a/*24", "rep:a/*1000", "rep:a/*30000", "rep:+/*64", "rep:a*60000/", "#/", "+/", "a//", "a", "/", "a/#/b/", "$share/g/a/b/"}
 
 var sizeLimits = []int{1024, 65536}
 
